@@ -14,6 +14,7 @@ use vcommon::*;
 fn bytes_of(v: &Value) -> Vec<u8> {
     v.as_array().map(|a| a.iter().map(|x| x.as_u64().unwrap() as u8).collect()).unwrap_or_default()
 }
+#[allow(dead_code)]
 fn lens_of(v: &Value) -> Vec<usize> {
     v.as_array().map(|a| a.iter().map(|x| x.as_u64().unwrap() as usize).collect()).unwrap_or_default()
 }
@@ -137,6 +138,68 @@ fn replay_one(e: &Entry, rec: &Value, modes_all: bool, cx: &mut Ctx) -> Value {
     obs
 }
 
+/// C03 / C18: bytes written by one program version, read by another.
+fn evo_one(reg: &HashMap<String, Entry>, rec: &Value, cx: &mut Ctx) {
+    let mode = rec["mode"].as_str().unwrap();
+    let i = rec["i"].as_u64().unwrap() as u32;
+    let j = rec["j"].as_u64().unwrap() as u32;
+    let mv: MV = serde_json::from_value(rec["v"].clone()).expect("model value");
+    let expect: MV = serde_json::from_value(rec["expect"].clone()).expect("model value");
+    let want = bytes_of(&rec["bytes"]);
+    let (ki, kj) = (canon(&rec["ts"][0]), canon(&rec["ts"][1]));
+    let (Some(ei), Some(ej)) = (reg.get(&ki), reg.get(&kj)) else {
+        cx.fail("tool.missing_type", format!("{} / {}", ki, kj));
+        return;
+    };
+    // "up": program i writes at i, program j reads.   "down": program j writes at i, program i reads.
+    let (p, writer, reader, mem_ver) = if mode == "up" { ("c03", ei, ej, j) } else { ("c18", ej, ei, i) };
+    let mut sink = Tap::new();
+    let so = writer.ops.save(&mv, i, Mode::Bare, &mut sink);
+    if !so.is_ok() {
+        cx.fail(&format!("{}.save.bare", p), format!("{:?}", so));
+        return;
+    }
+    if sink.data != want {
+        cx.fail(&format!("{}.bytes", p), format!("real={:?} spec={:?}", sink.data, want));
+    }
+    for (tag, data) in [("real", &sink.data), ("spec", &want)] {
+        let mut src = TapR::new(data);
+        match reader.ops.load(&mut src, i, Mode::Bare) {
+            Outcome::Ok(back) => {
+                if back != expect {
+                    cx.fail(&format!("{}.value.bare.{}", p, tag), format!("loaded={:?} expected={:?}", back, expect));
+                }
+                if src.pos != data.len() {
+                    cx.fail(&format!("{}.consumed.bare.{}", p, tag), format!("pos={} len={}", src.pos, data.len()));
+                }
+            }
+            other => cx.fail(&format!("{}.load.bare.{}", p, tag), format!("{:?}", other)),
+        }
+    }
+    if mode == "up" {
+        for mode in [Mode::Plain, Mode::NoSchema, Mode::Bz, Mode::Crypto] {
+            let tag = format!("{:?}", mode).to_lowercase();
+            let mut sink = Tap::new();
+            sink.keep_log = false;
+            let so = writer.ops.save(&mv, i, mode, &mut sink);
+            if !so.is_ok() {
+                cx.fail(&format!("c03.save.{}", tag), format!("{:?}", so));
+                continue;
+            }
+            let mut src = TapR::new(&sink.data);
+            src.keep_log = false;
+            match reader.ops.load(&mut src, mem_ver, mode) {
+                Outcome::Ok(back) => {
+                    if back != expect {
+                        cx.fail(&format!("c03.value.{}", tag), format!("loaded={:?} expected={:?}", back, expect));
+                    }
+                }
+                other => cx.fail(&format!("c03.load.{}", tag), format!("{:?}", other)),
+            }
+        }
+    }
+}
+
 fn main() {
     let args: Vec<String> = std::env::args().collect();
     let cmd = args.get(1).map(|s| s.as_str()).unwrap_or("");
@@ -164,6 +227,20 @@ fn main() {
                 };
                 let res = json!({"i": i, "fails": cx.fails, "obs": obs});
                 writeln!(out, "{}", res).unwrap();
+            }
+        }
+        "evo" => {
+            let input = std::fs::File::open(&args[2]).expect("records file");
+            let mut out = BufWriter::new(std::fs::File::create(&args[3]).expect("out file"));
+            for (i, line) in std::io::BufReader::new(input).lines().enumerate() {
+                let line = line.unwrap();
+                if line.trim().is_empty() {
+                    continue;
+                }
+                let rec: Value = serde_json::from_str(&line).expect("record json");
+                let mut cx = Ctx { fails: vec![] };
+                evo_one(&reg, &rec, &mut cx);
+                writeln!(out, "{}", json!({"i": i, "fails": cx.fails})).unwrap();
             }
         }
         "layouts" => {
